@@ -38,6 +38,11 @@ SigListEllLen(x) == x.t = "list" /\ IsSome(x.elems) /\ HasEll(Get(x.elems))
 \* F4: empty alphabet
 SigEmptyAlphabet(x) == x.t = "str" /\ IsNone(x.value) /\ IsSome(x.alphabet) /\ Get(x.alphabet).s = <<>>
 
+\* F6: a string schema whose `contains` contradicts its length or alphabet is accepted by the DSL
+\* although no string conforms; nested in a container that is satisfiable without it (an empty
+\* typed list, an optional key, another alternative) the generator still emits its best effort
+SigContradictoryStr(x) == x.t = "str" /\ IsNone(x.value) /\ IsSome(x.substr) /\ ~Sat(x)
+
 \* an escaping exception is the recorded float-rounding finding or nothing
 FloatRoundKnown(x) == \E y \in SubSchemas(x) : y.t = "float" /\ IsSome(y.value) /\ IsSome(y.precision)
 
@@ -48,6 +53,7 @@ KnownGen(x) ==
      \/ DEV_ListEllipsisLenIgnored /\ SigListEllLen(y)
      \/ SigEmptyAlphabet(y)
      \/ SigFloatGrid(y) /\ IsSome(y.min) /\ IsSome(y.max)      \* F5: no grid point in [min, max]
+     \/ SigContradictoryStr(y)
 
 
 \* the open generation findings, as pure signatures (independent of the DEV_ switches)
@@ -55,5 +61,6 @@ KnownGenSig(x) ==
   \E y \in SubSchemas(x) :
      \/ SigEmptyAlphabet(y)
      \/ SigFloatGrid(y) /\ IsSome(y.min) /\ IsSome(y.max)
+     \/ SigContradictoryStr(y)
 
 =============================================================================
